@@ -811,3 +811,145 @@ Proof.
     split; [first [reflexivity|exact Es]|]. repeat split; auto; apply Hk.
   - exists t, t, s, group, g. repeat split; auto; apply Hk.
 Qed.
+
+(* ------------------------------------------------------------------ *)
+(* Part 7: sort(deep=True) *)
+
+(* relational specification, independent of fuel and failure flags: at every level of the branch
+   the child list is the stable sorted permutation [py_sort] of what it was, and the sorted
+   children are themselves deep-sorted *)
+Inductive deep_sorted (k : keyt) (rv : bool) : rt -> rt -> Prop :=
+| DS id i ch ch' : Forall2 (deep_sorted k rv) (py_sort k rv ch) ch' -> deep_sorted k rv (T id i ch) (T id i ch').
+
+Lemma sort_deep_failed fuel k rv t : sort_deep fuel k rv t true = (t, true).
+Proof. destruct fuel; [reflexivity|]. destruct t; reflexivity. Qed.
+
+(* the loop over the (already sorted) children, as it occurs in sort_deep and sort_list *)
+Definition deep_loop (fuel : nat) (k : keyt) (rv : bool) :=
+  fix go (l : list rt) (failed : bool) {struct l} : list rt * bool :=
+    match l with
+    | [] => ([], failed)
+    | c :: l' => let (c', f1) := sort_deep fuel k rv c failed in
+                 let (r', f2) := go l' f1 in (c' :: r', f2)
+    end.
+
+Lemma deep_loop_failed fuel k rv : forall l, deep_loop fuel k rv l true = (l, true).
+Proof.
+  induction l as [|c l IH]; [reflexivity|]. cbn [deep_loop]. rewrite sort_deep_failed.
+  fold (deep_loop fuel k rv). now rewrite IH.
+Qed.
+
+Lemma deep_loop_spec fuel k rv
+  (IH : forall c c', sort_deep fuel k rv c false = (c', false) -> size c < fuel -> deep_sorted k rv c c') :
+  forall l l', deep_loop fuel k rv l false = (l', false) -> (forall c, In c l -> size c < fuel) ->
+               Forall2 (deep_sorted k rv) l l'.
+Proof.
+  induction l as [|c l IHl]; intros l' H Hs.
+  - cbn in H. injection H as <-. constructor.
+  - cbn [deep_loop] in H. fold (deep_loop fuel k rv) in H.
+    destruct (sort_deep fuel k rv c false) as [c' f1] eqn:Ec.
+    destruct f1.
+    + rewrite deep_loop_failed in H. discriminate.
+    + destruct (deep_loop fuel k rv l false) as [r' f2] eqn:El. injection H as <- ->.
+      constructor.
+      * apply IH; [exact Ec|apply Hs; now left].
+      * apply IHl; [reflexivity|]. intros x Hx. apply Hs. now right.
+Qed.
+
+Lemma size_le_sum c : forall l, In c l -> size c <= list_sum (map size l).
+Proof.
+  unfold list_sum. induction l as [|x l IH]; intros H; [destruct H|]. cbn [map fold_right]. destruct H as [->|H]; [lia|].
+  specialize (IH H). lia.
+Qed.
+
+Lemma in_py_sort k rv c l : In c (py_sort k rv l) -> In c l.
+Proof. intros H. eapply Permutation_in; [apply py_sort_perm|exact H]. Qed.
+
+Theorem sort_deep_spec k rv : forall fuel t t',
+  sort_deep fuel k rv t false = (t', false) -> size t < fuel -> deep_sorted k rv t t'.
+Proof.
+  induction fuel as [|fuel IH]; intros t t' H Hs; [lia|].
+  destruct t as [id i ch]. cbn [sort_deep] in H.
+  destruct ch as [|c0 ch0].
+  - injection H as <-. constructor. destruct rv; constructor.
+  - destruct (negb (keys_ok k (c0 :: ch0))); [discriminate|].
+    fold (deep_loop fuel k rv) in H.
+    destruct (deep_loop fuel k rv (py_sort k rv (c0 :: ch0)) false) as [r f] eqn:El.
+    cbn [fst snd] in H. injection H as <- ->.
+    constructor. apply (deep_loop_spec fuel k rv IH _ _ El).
+    intros c Hc. apply in_py_sort in Hc. pose proof (size_le_sum c _ Hc) as L.
+    change (size (T id i (c0 :: ch0))) with (S (list_sum (map size (c0 :: ch0)))) in Hs. lia.
+Qed.
+
+(* Tree.sort / sort_children(deep=True) on a child list *)
+Theorem sort_list_deep_spec k rv ch ch' :
+  sort_list k rv true ch = (ch', false) -> Forall2 (deep_sorted k rv) (py_sort k rv ch) ch'.
+Proof.
+  unfold sort_list. intros H. destruct ch as [|c0 ch0].
+  - injection H as <-. destruct rv; constructor.
+  - rewrite andb_false_r in H. destruct (negb (keys_ok k (c0 :: ch0))); [discriminate|].
+    fold (deep_loop (S (size_f (c0 :: ch0))) k rv) in H.
+    apply (deep_loop_spec _ k rv (fun c c' E L => sort_deep_spec k rv _ c c' E L) _ _ H).
+    intros c Hc. apply in_py_sort in Hc. pose proof (size_le_sum c _ Hc) as L. unfold size_f. lia.
+Qed.
+
+(* what deep_sorted means for the tree: same root, every node of the result has a sorted child list,
+   and the nodes are the same *)
+Lemma deep_sorted_root k rv t t' : deep_sorted k rv t t' -> rid t' = rid t /\ rinfo t' = rinfo t.
+Proof. intros H. destruct H. split; reflexivity. Qed.
+
+(* sort at the level of step, any [deep]: the named child list becomes [ch'], everything outside unchanged;
+   deep=false: ch' = py_sort ch; deep=true: ch' is py_sort ch with every child deep-sorted *)
+Theorem sort_effect w ti p k rv dp r w' :
+  op_sort w ti p k rv dp = (Ok r, w') ->
+  exists t t' pq ch ch',
+    get_tree w ti = Some t /\ get_tree w' ti = Some t' /\
+    parent_path p (forest_of t) = Some pq /\ get_ch pq (forest_of t) = Some ch /\
+    get_ch pq (forest_of t') = Some ch' /\
+    (if dp then Forall2 (deep_sorted k rv) (py_sort k rv ch) ch' else ch' = py_sort k rv ch) /\
+    repl_rows (rows p ch) (rows p ch') (rows 0 (forest_of t)) (rows 0 (forest_of t')) /\
+    reg t' = reg t /\ idx t' = idx t /\
+    (forall tj, tj <> ti -> get_tree w' tj = get_tree w tj).
+Proof.
+  destruct dp.
+  2:{ intros H. destruct (sort_flat_effect w ti p k rv r w' H) as (t & t' & pq & ch & E1 & E2 & E3 & E4 & E5 & E6 & E7).
+      exists t, t', pq, ch, (py_sort k rv ch). repeat split; auto.
+      all: unfold op_sort in H; rewrite E1, E3, E4 in H; destruct (sort_list k rv false ch) as [x []]; try discriminate;
+           injection H as _ <-; rewrite (get_put_same _ _ t _ E1) in E2; injection E2 as <-; reflexivity. }
+  unfold op_sort. intros H.
+  destruct (get_tree w ti) as [t|] eqn:Et; [|discriminate].
+  destruct (parent_path p (forest_of t)) as [pq|] eqn:Ep; [|discriminate].
+  destruct (get_ch pq (forest_of t)) as [ch|] eqn:Ec; [|discriminate].
+  destruct (sort_list k rv true ch) as [ch' failed] eqn:Es.
+  destruct failed; [discriminate|]. injection H as <- <-.
+  eexists t, _, pq, ch, ch'.
+  split; [first [reflexivity|exact Et]|]. split; [exact (get_put_same _ _ t _ Et)|].
+  split; [first [reflexivity|exact Ep]|]. split; [first [reflexivity|exact Ec]|].
+  split; [cbn [forest_of set_forest]; now rewrite (get_ch_upd_ch _ _ _ _ Ec)|].
+  split; [now apply sort_list_deep_spec|].
+  split.
+  - cbn [forest_of set_forest].
+    destruct (upd_ch_context pq (forest_of t) 0 ch Ec) as (A & B & E1 & E2).
+    rewrite (parent_path_owner p _ pq ch Ep Ec) in E1, E2.
+    exists A, B. split; [exact E1|]. now rewrite E2.
+  - split; [reflexivity|]. split; [reflexivity|]. intros tj Hj. rewrite get_put_other by congruence. reflexivity.
+Qed.
+
+(* -- del tree[key] and rename are the operations they are documented to be -- *)
+Theorem del_effect w ti key r w' :
+  op_del w ti key = (Ok r, w') ->
+  exists t n, get_tree w ti = Some t /\ getitem t key = Some [n] /\ op_remove w ti n false false = (Ok r, w').
+Proof.
+  unfold op_del. intros H. destruct (get_tree w ti) as [t|] eqn:Et; [|discriminate].
+  destruct (getitem t key) as [[|n [|? ?]]|] eqn:Eg; try discriminate. exists t, n. auto.
+Qed.
+
+Theorem rename_effect w ti n d r w' :
+  op_rename w ti n d = (Ok r, w') ->
+  exists t s, get_tree w ti = Some t /\ get_node n (forest_of t) = Some s /\ i_isstr (rinfo s) = true /\
+              op_set_data w ti n (Some d) None None = (Ok r, w').
+Proof.
+  unfold op_rename. intros H. destruct (get_tree w ti) as [t|] eqn:Et; [|discriminate].
+  destruct (get_node n (forest_of t)) as [s|] eqn:Es; [|discriminate].
+  destruct (i_isstr (rinfo s)) eqn:E; [|discriminate]. exists t, s. auto.
+Qed.
